@@ -98,17 +98,29 @@ pub fn obs_text(items: &[String], fin: &str) -> String {
     join_obs(items.iter().map(|s| short_item(s)).collect(), fin)
 }
 
+/// Marker "chunk sizes" of the two extra schedule variants that build the parser through its
+/// convenience constructors (`Parser::from_read`, `Parser::from_boxed_dyn_read`; default chunk
+/// size) instead of `Parser::new(LineReader::new(reader))`.
+pub const CTOR_FROM_READ: usize = usize::MAX;
+pub const CTOR_BOXED: usize = usize::MAX - 1;
+
 fn run_typed<L: Dimacs + 'static>(fmt: &str, cfg: bool, src: SchedSource, chunk: usize) -> RunObs {
     let delivered = |s: &SchedSource| s.0.borrow().log.len();
     let mut reader = DeferredReader::from_read(src.clone());
-    reader.set_chunk_size(chunk);
+    if chunk < CTOR_BOXED {
+        reader.set_chunk_size(chunk);
+    }
     let mut items = vec![];
     macro_rules! drive {
         ($module:ident, $hdr:expr, $item:expr) => {{
-            let parser = $module::Parser::<L>::new(
-                flussab::text::LineReader::new(reader),
-                $module::Config::default().ignore_header(cfg),
-            );
+            let config = $module::Config::default().ignore_header(cfg);
+            let parser = if chunk == CTOR_FROM_READ {
+                $module::Parser::<L>::from_read(src.clone(), config)
+            } else if chunk == CTOR_BOXED {
+                $module::Parser::<L>::from_boxed_dyn_read(Box::new(src.clone()), config)
+            } else {
+                $module::Parser::<L>::new(flussab::text::LineReader::new(reader), config)
+            };
             match parser {
                 Err(e) => return RunObs { items, fin: err_obs(&e) },
                 Ok(mut p) => {
@@ -211,6 +223,10 @@ pub fn schedules(rng: &mut Rng, len: usize) -> Vec<(String, Vec<Ev>, usize)> {
         s.push(Ev::Give(rng.range(1, 12) as usize));
     }
     v.push((format!("random-c{}", chunk), s, chunk));
+    // the parsers' convenience constructors, under a short-read schedule when the input is small
+    let short = |m: usize| -> Vec<Ev> { if len <= 4096 { (0..len + 2).map(|i| Ev::Give(1 + (i * m) % 13)).collect() } else { vec![] } };
+    v.push(("ctor-from_read".into(), short(5), CTOR_FROM_READ));
+    v.push(("ctor-boxed".into(), short(7), CTOR_BOXED));
     if len >= 2 && len <= 48 {
         // every two-piece split of a short input
         let cut = rng.range(1, (len - 1) as u64) as usize;
